@@ -54,7 +54,7 @@ def run(ctx):
     b2 = physics[2]
     for s in ((5, 11) if ctx.quick else (2, 5, 9, 13)):
         if True:
-            a = dict(b2, k=2, split=[s * dt - dt / 2, (16 - s) * dt - dt / 2])
+            a = dict(b2, k=2, k2=(1 if s % 2 else 3), seed_twice=True, split=[s * dt - dt / 2, (16 - s) * dt - dt / 2])
             jobs.append(("call", dict(module="harness.twin", func="solve_frames", args=a)))
             fam.append(b2["label"])
     results = rf.replay_all(ctx, jobs)
@@ -71,6 +71,10 @@ def run(ctx):
                                             r["args"].get("progress", "-"), ("/split@%d" % len(r["frames"]) if r["args"].get("split") else ""))
             run_id = f"{nruns}:{run_id}"
             for fr in r["frames"]:
+                if fr.get("seed_before") or fr.get("seed_after"):
+                    # the seed Solution handed to a continuation must not be modified by it
+                    ev.append({"run": run_id, "key": f"seed-object-of-{run_id}", "q": [intern(fr["hash"])]})
+                    continue
                 ev.append({"run": run_id, "key": f"frame@step{fr['step']}", "q": [intern(fr["hash"])]})
                 ev.append({"run": run_id, "key": f"time@step{fr['step']}", "q": [intern(fr["time"])]} if not r["args"].get("split") else
                           {"run": run_id, "key": f"frame@step{fr['step']}", "q": [intern(fr["hash"])]})
